@@ -149,6 +149,10 @@ def cases(seed, tier):
     zras = xr.DataArray(np.array([[0, 1, 1], [2, 0, 255]], dtype="int32"), dims=("y", "x"), attrs={"nodata": 255})
     for order in (("time", "y", "x"), ("y", "x", "time"), ("y", "time", "x"), ("x", "y", "time")):
         gu("zonal.mean(accessor)", "dims=" + ",".join(order), True, lambda b, order=order: np.asarray(zcube.transpose(*order).hdc.zonal.mean(zras, [0, 1, 2])), [])
+        # ... the (non-square) zone raster stored in (x, y) order, eager and dask-backed
+        gu("zonal.mean(accessor)", "zones=x,y;dims=" + ",".join(order), True, lambda b, order=order: np.asarray(zcube.transpose(*order).hdc.zonal.mean(zras.transpose("x", "y"), [0, 1, 2])), [])
+        gu("zonal.mean(accessor)", "dask;zones=x,y;dims=" + ",".join(order), True,
+           lambda b, order=order: np.asarray(zcube.transpose(*order).chunk({"time": 2}).hdc.zonal.mean(zras.transpose("x", "y"), [0, 1, 2])), [])
     # every accessor operation on a cube stored time first / last / middle (eager), with bounds checking on:
     # the accessors hand cubes to (y, x, t) / (t, y, x) kernels and must put the axes where those expect them
     from harness.props import x05
